@@ -445,6 +445,9 @@ class Runtime:
     # ---- R2 loops
     def loop_native(self, key, iterable, loc):
         """decide whether the loop runs natively (concrete iteration) or is cut by its invariant"""
+        if _st.ENGINE is None:
+            self._pending[key] = iterable
+            return True
         spec = self.loop_specs.get(key)
         symbolic = isinstance(iterable, (SList, SRange, SEnum)) or hasattr(iterable, "vc_symbolic_iter")
         if spec is None or (not symbolic and iterable is not None and spec.mode != "force"):
@@ -471,6 +474,8 @@ class Runtime:
     def while_tick(self, key):
         # native while loop: cap the number of iterations per path
         eng = self.eng
+        if eng is None:
+            return True
         c = eng.loop_counts = getattr(eng, "loop_counts", {})
         k = (key, eng.cur_path.idx)
         c[k] = c.get(k, 0) + 1
@@ -1111,10 +1116,10 @@ class Loader:
                 return self._sf_module("strawberryfields")
             m = self._sf_module(full)
             return m
-        if full in self.overrides:
-            return self.overrides[full]
         if top in self.overrides and topreturn:
             return self.overrides[top]
+        if full in self.overrides:
+            return self.overrides[full]
         if top == "numpy":
             from . import npm
             return npm.module_for(full) if not topreturn else npm.NP
@@ -1191,4 +1196,11 @@ class SFPackage(types.ModuleType):
                             if hasattr(m, al.name):
                                 return getattr(m, al.name)
                             return ld._sf_module(sub + "." + al.name)
-        raise Undecided(f"attribute {key} of the package is not modelled")
+        # last resort: execute the package __init__ itself (as python would)
+        try:
+            m = ld.load(pn)
+        except RecursionError:
+            raise Undecided(f"attribute {key}: circular package import")
+        if hasattr(m, a):
+            return getattr(m, a)
+        raise AttributeError(f"module {pn!r} has no attribute {a!r}")
